@@ -38,3 +38,4 @@ INVARIANT A_C14_RunningFinish
 PROPERTY A_C14_NoStartAfterInterrupt
 INVARIANT A_C14_RunningCached
 INVARIANT A_C14_CacheConsistent
+INVARIANT A_C01_Returns
